@@ -524,8 +524,9 @@ def check_property(pid, tier, seed):
         write_evidence(pid, prop, tier, seed, merged, wall, len(real),
                        {"legs": leginfo, "known_findings": [k for k in findings], "inconclusive": inconclusive})
         if real:
-            for v, vf, dst in real:
-                log("--- violation (%s): %s" % (v["tag"], (vf.get("message") or "")[:3000]))
+            for i, (v, vf, dst) in enumerate(real):
+                if i < 3:
+                    log("--- violation (%s): %s" % (v["tag"], (vf.get("message") or "")[:1200]))
                 log("VIOLATION property=%s replay=%s" % (pid, dst))
             return 1
         if inconclusive:
